@@ -12,8 +12,10 @@ def ask_side(eng, v):
     for p in eng.paths('execute', 'ok', v):
         n += 1
         dom = Dom(p); eqv = Equiv(p)
-        ready = p.variant_of(CLASS) == 'Convertible' and p.variant_of(STATUS) == 'Ready'
+        ready = ask_class_presence(eng, PROP, p, ASK, 'the ask is paid out') == 'Ready'
         if ready: dom.assume_ready_ask(ASK)
+        if v == 'RejectAsk':
+            eng.ob(p.variant_of(M(v, 'size')) in ('Some', 'None'), PROP, 'size-presence', v, '%s: the ask is paid out on a path that never looks at whether a size was supplied (a supplied size must be honoured)' % v, where=p, detail=p.describe(14))
         supplied = v == 'RejectAsk' and p.variant_of(M(v, 'size')) == 'Some'
         if v == 'CancelAsk': c = F(ASK, 'size')
         else: c = SOMEV(M(v, 'size')) if supplied else F(ASK, 'size')
@@ -73,8 +75,10 @@ def bid_side(eng, v):
     n = 0
     for p in eng.paths('execute', 'ok', v):
         n += 1
-        has_fee = p.variant_of(bs.FEE) == 'Some'
+        has_fee = fee_presence(eng, PROP, p, bs.FEE, 'the bid is paid out') == 'Some'
         dom = Dom(p); dom.assume_bid(BID, has_fee); eqv = Equiv(p)
+        if v == 'RejectBid':
+            eng.ob(p.variant_of(M(v, 'size')) in ('Some', 'None'), PROP, 'size-presence', v, '%s: the bid is paid out on a path that never looks at whether a size was supplied (a supplied size must be honoured)' % v, where=p, detail=p.describe(14))
         supplied = v == 'RejectBid' and p.variant_of(M(v, 'size')) == 'Some'
         c = SOMEV(M(v, 'size')) if supplied else bs.remB
         q = MUL(bs.P, c)
